@@ -21,14 +21,16 @@ Record sstate := mkSS { ss_s0 : nat; ss_pl : list nat; ss_seen : list gref; ss_p
 
 Record VA := mkVA {
   va_tls : option nat;       (* the record this thread is attached to (between "_att" and "_det") *)
-  va_unpub : option nat;     (* a record created by this thread and not yet pushed on thread_list_ *)
+  va_unpub : option (nat * bool);   (* a record created by this thread and not yet pushed on thread_list_; thread_id_ stored? *)
   va_hold : option nat;      (* a record owned through thread_id_ while attaching / detaching *)
   va_help : option nat;      (* a record acquired by help_scan *)
+  va_node : option nat;      (* a record met while walking thread_list_ (alloc_thread_data) *)
   va_blk : option nat;       (* a guard block taken from the allocator and not yet linked *)
+  va_e : option (option nat);   (* the value of extended_list_ read by thread_hp_storage::extend *)
   va_limbo : option (option nat * list nat);   (* the guard blocks of the record being detached that are still to be freed *)
   va_scan : option sstate }.
 
-Definition va0 : VA := mkVA None None None None None None None.
+Definition va0 : VA := mkVA None None None None None None None None None.
 
 Record AuxA := mkAuxA { views : nat -> VA; bown : nat -> bowner }.
 Definition viewA (a : AuxA) (t : nat) : VA := views a t.
@@ -119,10 +121,10 @@ Section InvA.
                (forall b kb, In (b, kb) (linked h r) -> bown a b = BLinked r /\ k < kb /\ kb < hlen h);
     ja_tls : forall t r, va_tls (views a t) = Some r -> exists k, att h r = Some (t, k);
     ja_unatt : forall r, att h r = None -> linked h r = [];
-    ja_unpub : forall t r, va_unpub (views a t) = Some r ->
+    ja_unpub : forall t r bt, va_unpub (views a t) = Some (r, bt) ->
                r < List.length (recs g) /\ att h r = None /\ (forall L, rchain g (tlist g) L -> ~ In r L) /\
-               r_ext (grec g r) = None /\ List.length (r_slots (grec g r)) = HH /\
-               (forall t', va_unpub (views a t') = Some r -> t' = t);
+               r_ext (grec g r) = None /\ r_tid (grec g r) = (if bt then S t else 0) /\
+               (forall t' bt', va_unpub (views a t') = Some (r, bt') -> t' = t);
     ja_hold : forall t r, va_hold (views a t) = Some r ->
                r < List.length (recs g) /\ att h r = None /\ r_tid (grec g r) = S t /\ after g (tlist g) r /\
                List.length (r_slots (grec g r)) = HH /\ (va_limbo (views a t) = None -> r_ext (grec g r) = None);
@@ -136,6 +138,10 @@ Section InvA.
                gchain g o lb /\ NoDup lb /\ forall b, In b lb -> bown a b = BPriv t;
     ja_free : (forall b, In b (freeh h FHp) <-> bown a b = BFree) /\ NoDup (freeh h FHp);
     ja_bnd : forall b, List.length (gbs g) <= b -> bown a b = BNone;
+    ja_recs : forall r, r < List.length (recs g) -> List.length (r_slots (grec g r)) = HH;
+    ja_gbs : forall b, b < List.length (gbs g) -> List.length (gb_slots (ggb g b)) = GBk;
+    ja_e : forall t e, va_e (views a t) = Some e -> exists r, va_tls (views a t) = Some r /\ r_ext (grec g r) = e;
+    ja_node : forall t n, va_node (views a t) = Some n -> after g (tlist g) n;
     ja_slot : forall s, slot_get g s = slotv h s;
     ja_scan : forall t, match va_scan (views a t) with
                         | Some ss => scan h t = Some (ss_s0 ss) /\ scan_ok g h ss
@@ -241,7 +247,7 @@ Section Quiet.
     JA c g a h -> JA c g' a h'.
   Proof.
     intros P Hh Hsl J. pose proof P as (A1&A2&A3&A4&A5). pose proof Hh as (B1&B3&B4&B5&B6&B7).
-    destruct J as [J1 J2 J3 J4 J5 J6 J7 J8 J9 J10 J11 J12 J13 J14]. constructor.
+    destruct J as [J1 J2 J3 J4 J5 J6 J7 J8 J9 J10 J11 J12 J15 J16 J17 J18 J13 J14]. constructor.
     - destruct J1 as (L & H1 & H2). exists L. rewrite A1. split; auto. eapply rchain_piA; eauto.
     - intros r t k Ha. rewrite B3 in Ha. destruct (J2 r t k Ha) as (X1&X2&X3&X4&X5&X6&X7&X8&X9).
       destruct (A4 r) as (E1&E2&E3&E4). rewrite E2, E3, E4, A2, B4.
@@ -251,8 +257,8 @@ Section Quiet.
       intros b kb Hb. destruct (X9 b kb Hb) as (Y1&Y2&Y3). repeat split; auto; lia.
     - intros t r Ht. destruct (J3 t r Ht) as (k & Hk). exists k. now rewrite B3.
     - intros r Ha. rewrite B3 in Ha. rewrite B4. auto.
-    - intros t r Ht. destruct (J5 t r Ht) as (X1&X2&X3&X4&X5&X6). destruct (A4 r) as (E1&E2&E3&E4).
-      rewrite A2, B3, E3, E4. repeat split; auto.
+    - intros t r bt Ht. destruct (J5 t r bt Ht) as (X1&X2&X3&X4&X5&X6). destruct (A4 r) as (E1&E2&E3&E4).
+      rewrite A2, B3, E2, E4. repeat split; auto.
       intros L HL. apply X3. rewrite A1 in HL. eapply rchain_piA; [apply piA_sym; exact P|exact HL].
     - intros t r Ht. destruct (J6 t r Ht) as (X1&X2&X3&X4&X5&X6). destruct (A4 r) as (E1&E2&E3&E4).
       rewrite A2, B3, E2, E3, E4. repeat split; auto. rewrite A1. eapply after_piA; eauto.
@@ -262,6 +268,10 @@ Section Quiet.
     - intros t o lb Ht. destruct (J10 t o lb Ht) as (X1&X2&X3). repeat split; auto. eapply gchain_piA; eauto.
     - rewrite B6. exact J11.
     - intros b Hb. apply J12. lia.
+    - intros r Hr. destruct (A4 r) as (_&_&E&_). rewrite E. apply J15. lia.
+    - intros b Hb. destruct (A5 b) as (_&E). rewrite E. apply J16. lia.
+    - intros t e Ht. destruct (J17 t e Ht) as (r & X1 & X2). exists r. split; auto. destruct (A4 r) as (_&_&_&E). congruence.
+    - intros t n Ht. rewrite A1. eapply after_piA; eauto.
     - exact Hsl.
     - intros t. specialize (J14 t). destruct (va_scan (views a t)) as [ss|]; rewrite B5; auto.
       destruct J14 as (X1 & X2). split; auto. eapply scan_ok_quiet; eauto.
